@@ -110,13 +110,22 @@ def rule_r3(facts, col):
                         e = body.rvalue_expr(s["rv"])
                         if is_const(peel(e, through_try=False), 0) and isinstance(s["dst"]["p"][-1], dict):
                             resets.add(s["dst"]["p"][-1].get("n"))
+        # tags may be built by local closures (`let start = || Tag::new(..)`): judged where the closure is called
+        from .. import inline, effects
+        views = []
         for body in scope:
+            nb, inl = inline.inline_body(facts, body, lambda hb: hb.kind == "closure", closures=True)
+            if inl:
+                effects._FACTS_FOR_VERDICTS[id(nb)] = facts
+            views.append((body, nb))
+        for body0, body in views:
             for bb, t in body.calls_to(TAG_NEW):
                 keyname = peel(body.operand_expr(t["args"][1]))
                 kn = (keyname.name or "?") if keyname.k == "const" else "?"
                 key = "%s:tag(%s)" % (work.q, kn.strip('"').replace("const ", ""))
                 ok = False
-                for fact in facts_at_with_callers(facts, body, bb):
+                for fact in (facts_at_with_callers(facts, body0, bb) if body is body0 else
+                             facts_at(body, bb) + _caller_facts(facts, body0)):
                     if fact[0] in ("Eq",) and _const_is(fact[2], 0):
                         fp = self_field_path(fact[1])
                         if fp and fp[-1] in resets:
@@ -136,6 +145,15 @@ def rule_r3(facts, col):
                             "a per-repetition marker tag is created on a path that is not restricted to the start of a "
                             "repetition (progress field == 0): when a repetition is emitted in several pieces the marker is "
                             "repeated on every piece", {})
+
+
+def _caller_facts(facts, body0):
+    """facts established at every call site of the helper body0 (for its inlined-closure view, whose blocks are not body0's)"""
+    try:
+        ret = facts_at_with_callers(facts, body0, 0)
+    except Exception:
+        ret = []
+    return list(ret)
 
 
 def _const_is(e, v):
